@@ -119,6 +119,34 @@ def infeasible_items(tier):
     add("3-cycle", {"resources": R, "tasks": [T("a", deps=["c"]), T("b", deps=["a"]), T("c", deps=["b"])]})
     add("cycle-through-container", {"resources": R, "tasks": [{"id": "g", "deps": ["x"], "children": [T("a"), T("b")]}, T("x", deps=["g.a"])]})
     add("container-depends-own-child", {"resources": R, "tasks": [{"id": "g", "deps": ["g.a"], "children": [T("a"), T("b")]}]})
+    # every cycle shape x an attached task z (downstream / upstream of the cycle) x kind of z x project mode
+    cycles = {
+        "self": [T("a", deps=["a"])],
+        "two": [T("a", deps=["b"]), T("b", deps=["a"])],
+        "three": [T("a", deps=["c"]), T("b", deps=["a"]), T("c", deps=["b"])],
+        "container": [{"id": "g", "deps": ["x"], "children": [T("a"), T("b")]}, T("x", deps=["g.a"])],
+    }
+    zkinds = {
+        "asap": {},
+        "alap-end": {"sched": "alap", "end": "2025-01-17-17:00"},
+        "alap": {"sched": "alap"},
+        "asap-start": {"start": "2025-01-08-09:00"},
+        "ms": None,
+    }
+    import copy as _copy
+    for cname, ctasks in cycles.items():
+        member = "g.a" if cname == "container" else "a"
+        for zk, zattrs in zkinds.items():
+            for side in ("down", "up", "both"):
+                for palap in (False, True):
+                    tasks = _copy.deepcopy(ctasks)
+                    z = {"id": "z", "milestone": True} if zattrs is None else T("z", **zattrs)
+                    if side in ("down", "both"):
+                        z["deps"] = [member]
+                    if side in ("up", "both"):
+                        tgt = tasks[0]["children"][0] if cname == "container" else tasks[0]
+                        tgt["deps"] = list(tgt.get("deps", [])) + ["z"]
+                    add(f"cycle {cname} + z {zk} {side} palap={palap}", {"alap": palap, "resources": R, "tasks": tasks + [z, T("free")]})
     for alap in (False, True):
         add(f"unknown-task-ref alap={alap}", {"alap": alap, "resources": R, "tasks": [T("a", deps=["nosuch"]), T("b", deps=["!!!a"])]})
         add(f"unknown-resource alap={alap}", {"alap": alap, "resources": R, "tasks": [{"id": "a", "effort": 90, "alloc": ["ghost"]}, T("b")]})
